@@ -9,7 +9,7 @@ DEMO_DST=$(head -1 $MUT/demo_test.go | grep -o 'internal/[^ ]*_test.go' | head -
 [ -z "$DEMO_DST" ] && DEMO_DST=$(git status --short | grep '^??' | grep _test.go | awk '{print $2}' | head -1)
 echo "demo at: $DEMO_DST"
 PKG=./$(dirname $DEMO_DST)
-git checkout -q -- . 
+git checkout -q -- . ; git clean -fdq -e "MUTATION*"
 cp $MUT/demo_test.go $DEMO_DST
 echo "== without change: demo must pass"
 go test -mod=mod -vet=off -count=1 $PKG > /tmp/vs_$ID.1 2>&1; R1=$?
